@@ -118,8 +118,23 @@ mod roundtrip {
         fn queries(&self) -> String;
     }
 
+    thread_local! {
+        /// unit of the data of the state being built: 0 = ordinary, -1 = tiny, +1 = huge (set per case by judge_state)
+        static UNIT: std::cell::Cell<i32> = std::cell::Cell::new(0);
+    }
+    /// Observations of ordinary size, or (one state in four) in a tiny or huge unit, an exact power of two chosen so that
+    /// squares, sums of squares of 3000 of them and reciprocals stay normal numbers of the element type: the registers
+    /// of such a state are far from 1 (compensation terms of tiny states are subnormal), which an encoding that is only
+    /// lossless for everyday magnitudes does not survive.
     fn val<F: num_traits::Float>(r: &mut Rng) -> F {
-        F::from(1.0 + r.f64() * 99.0 + if r.chance(0.2) { 1e6 } else { 0.0 }).unwrap()
+        let v = F::from(1.0 + r.f64() * 99.0 + if r.chance(0.2) { 1e6 } else { 0.0 }).unwrap();
+        let single = std::mem::size_of::<F>() == 4;
+        let e = match UNIT.with(|u| u.get()) {
+            -1 => if single { -55 } else { -490 },
+            1 => if single { 30 } else { 450 },
+            _ => 0,
+        };
+        v * F::from(2.0).unwrap().powi(e)
     }
 
     macro_rules! mean_state {
@@ -259,6 +274,11 @@ mod roundtrip {
             1 => r.range(2, 30) as usize,
             _ => r.range(30, 3000) as usize,
         };
+        let unit = if i % 17 == 11 { 0 } else { match i % 8 { 3 => -1, 6 => 1, _ => 0 } };
+        UNIT.with(|u| u.set(unit));
+        if unit != 0 {
+            l.count(if unit < 0 { "states of observations in a tiny unit (2^-490 / 2^-55)" } else { "states of observations in a huge unit (2^450 / 2^30)" });
+        }
         let mut original = S::build(&mut r, n);
         if i % 17 == 11 && n >= 1 {
             // the state of a long campaign: merged with itself 33 times, its counts exceed 2^32
@@ -278,6 +298,15 @@ mod roundtrip {
         }
         l.nontrivial(mix(&[hash_str(S::NAME), hash_str(&dbg)]));
         let cont_seed = r.next_u64();
+        // One case in three the original has answered its queries before it is serialised (a state in use is what gets
+        // checkpointed). If the type keeps anything besides its statistics (a memo of the last answer, say) the original
+        // then differs from a freshly restored copy in that respect; the property still requires the two to compare equal,
+        // answer alike and continue alike. Debug identity is only demanded of states that have not been queried.
+        let warm = i % 3 == 1;
+        if warm {
+            let _ = original.queries();
+            l.count("states queried before being serialised");
+        }
         for (fmt, back) in [("json", via_json(&original)), ("cbor", via_cbor(&original)), ("positional", via_pos(&original))] {
             l.eval();
             let case = || json!({"type": S::NAME, "i": i, "format": fmt});
@@ -288,7 +317,7 @@ mod roundtrip {
                     continue;
                 }
             };
-            if restored != original || format!("{:?}", restored) != dbg {
+            if restored != original || original != restored || (!warm && format!("{:?}", restored) != dbg) {
                 l.violation(format!("roundtrip|{}|{}|restored-differs", S::NAME, fmt), "the restored state is not equal / not Debug-identical to the original (a field was lost)".to_string(), case(), json!({"original": dbg, "restored": format!("{:?}", restored)}));
                 continue;
             }
@@ -301,7 +330,7 @@ mod roundtrip {
             a.feed(&mut Rng::new(cont_seed), k);
             b.feed(&mut Rng::new(cont_seed), k);
             l.eval();
-            if a != b || format!("{:?}", a) != format!("{:?}", b) || a.queries() != b.queries() {
+            if a != b || (!warm && format!("{:?}", a) != format!("{:?}", b)) || a.queries() != b.queries() {
                 l.violation(format!("roundtrip|{}|{}|continuation-diverges", S::NAME, fmt), "after the same continuation the restored state diverges from the original".to_string(), case(), json!({"original_after": format!("{:?}", a), "restored_after": format!("{:?}", b)}));
             }
         }
